@@ -36,6 +36,45 @@ def widen(jobs, by=(1,)):
     return out
 
 
+MIDSOLVE = {
+    "solve": "try:\n    ps.SchedulingSolver(problem=pb).solve()\nexcept Exception:\n    pass",
+    "init": "try:\n    ps.SchedulingSolver(problem=pb).initialize()\nexcept Exception:\n    pass",
+}
+
+
+def staged(jobs, stride=1, kinds=("solve",), cuts="alt"):
+    """The same programs built in two stages: a prefix of the declarations, then a throw-away solver is created
+    and run on the problem as it stands (nothing of it is kept), then the rest, then the solver under check. The
+    meaning of the finished problem is that of the one-stage build, so the same oracle applies; what the variant adds
+    is every piece of state that a first solver - or anything read while the problem was incomplete - leaves in the
+    problem, its tasks or its resources. cuts="alt": one cut per program, alternating between the middle and the
+    position before the last declaration; cuts="all": every position. Programs with objectives are skipped (recorded
+    finding C13: initialize() registers the equivalent objective in the problem)."""
+    import copy
+
+    out = []
+    n = 0
+    for j in jobs:
+        decls = j["program"]["decls"]
+        if len(decls) < 2 or any(d.get("cls", "").startswith("Objective") for d in decls if d["k"] == "new"):
+            continue
+        n += 1
+        if n % stride:
+            continue
+        m = n // stride
+        if cuts == "all":
+            where = list(range(1, len(decls)))
+        else:
+            where = [max(1, len(decls) // 2) if m % 2 else len(decls) - 1]
+        for cut in where:
+            kind = kinds[(m + cut) % len(kinds)]
+            j2 = copy.deepcopy(j)
+            j2["program"]["decls"] = decls[:cut] + [{"k": "raw", "src": MIDSOLVE[kind]}] + decls[cut:]
+            j2["family"] = j.get("family", "") + "+staged-" + kind
+            out.append(j2)
+    return out
+
+
 def rotate(items, seed=None):
     """VERIF_SEED only rotates the iteration order; no result may depend on it."""
     items = list(items)
